@@ -54,10 +54,31 @@ func returnsRates(t *ssa.Function) bool {
 func triggerBuilders(c *core.Ctx) []builderSite {
 	var out []builderSite
 	for _, fn := range an.FuncsOfType(c, apiPkg, "Constructor") {
-		if fn.Parent() == nil || !strings.HasPrefix(core.RelPkg(fn), "internal/trigger/") {
+		if !strings.HasPrefix(core.RelPkg(fn), "internal/trigger/") {
 			continue
 		}
-		b := builderSite{ctor: fn.Parent(), newFn: fn}
+		ctor := fn.Parent()
+		if ctor == nil {
+			// a named function used as the constructor: the builder is made where the function is taken as a value
+			for _, g := range c.AllFuncs {
+				if core.RelPkg(g) != core.RelPkg(fn) || g == fn {
+					continue
+				}
+				an.Instrs(g, func(in ssa.Instruction) {
+					for _, op := range in.Operands(nil) {
+						if *op == ssa.Value(fn) {
+							if _, isCall := in.(ssa.CallInstruction); !isCall || in.(ssa.CallInstruction).Common().Value != ssa.Value(fn) {
+								ctor = g
+							}
+						}
+					}
+				})
+			}
+		}
+		if ctor == nil {
+			continue
+		}
+		b := builderSite{ctor: an.Outermost(ctor), newFn: fn}
 		for _, call := range an.AllCalls(fn) {
 			if t := an.Callee(call); t != nil && core.InModule(t) && returnsRates(t) {
 				b.compute = append(b.compute, call)
